@@ -336,7 +336,7 @@ spec fn proj_c06<D, E>(ent: &EntityRef<D, E>, method: &Method, req: Map<HeaderNa
     let hm = o_hmap(out);
     let len = e_len(ent);
     // 413 only when the exact multipart length does not fit in u64
-    &&& (o_status(out) == 413 ==> (proceeds(ent, method, req) && {
+    &&& ((o_status(out) == 413 && method.k == 0 && !req.dom().contains(HeaderName::IF_RANGE)) ==> (proceeds(ent, method, req) && {
             let v = range::rr_view(effective_range(ent, req), len).1;
             total_len(v, len, ent_hdrs_for(ent, req), v.len() as int) + 9 > u64::MAX }))
     &&& (out matches ServeInner::Multipart { res, part_headers, ranges, len: t } ==> {
